@@ -257,4 +257,56 @@ theorem pow_eq (a : F) (e : Nat) (he : e < 2 ^ 64) : pow a e = a ^ e := by
 
 end Pow
 
+
+section Ring
+variable {F : Type} [CommRing F]
+
+/-! ## 2. butterflies -/
+
+omit [CommRing F] in
+theorem zipButterfly_length (g : F → F → F → F × F) (lo hi rs : List F) :
+    (zipButterfly g lo hi rs).1.length = lo.length ∧ (zipButterfly g lo hi rs).2.length = hi.length := by
+  fun_induction zipButterfly g lo hi rs with
+  | case1 l lo h hi r rs lh rest ih => simpa using ih
+  | case2 lo hi rs _ => simp
+
+theorem eval_zipButterflyIO (lo hi : List F) (w v x : F) (hl : lo.length = hi.length) :
+    eval (zipButterfly butterflyIO lo hi (computePowersAndMulByConstSerial lo.length w v)).1 x
+        = eval lo x + eval hi x ∧
+    eval (zipButterfly butterflyIO lo hi (computePowersAndMulByConstSerial lo.length w v)).2 x
+        = v * (eval lo (w * x) - eval hi (w * x)) := by
+  induction lo generalizing hi v with
+  | nil =>
+    cases hi with
+    | nil => simp [zipButterfly]
+    | cons h hi => simp at hl
+  | cons l lo ih =>
+    cases hi with
+    | nil => simp at hl
+    | cons h hi =>
+      have hl' : lo.length = hi.length := by simpa using hl
+      obtain ⟨h1, h2⟩ := ih hi (v * w) hl'
+      simp only [List.length_cons, computePowersAndMulByConstSerial, zipButterfly, eval_cons, h1, h2,
+        butterflyIO]
+      constructor <;> ring
+
+/-- DIF step -/
+theorem dif_step (lo hi : List F) (w : F) (m : Nat) (hlo : lo.length = m) (hhi : hi.length = m)
+    (hw : w ^ m = -1) (k : Nat) :
+    eval (lo ++ hi) ((w ^ 2) ^ k) = eval (zipButterfly butterflyIO lo hi (computePowersSerial m w)).1 ((w ^ 2) ^ k) ∧
+    eval (lo ++ hi) (w * (w ^ 2) ^ k) = eval (zipButterfly butterflyIO lo hi (computePowersSerial m w)).2 ((w ^ 2) ^ k) := by
+  subst hlo
+  obtain ⟨h1, h2⟩ := eval_zipButterflyIO lo hi w 1 ((w ^ 2) ^ k) hhi.symm
+  unfold computePowersSerial
+  rw [h1, h2, eval_append, eval_append]
+  have e1 : ((w ^ 2) ^ k) ^ lo.length = 1 := by
+    have : ((w ^ 2) ^ k) ^ lo.length = (w ^ lo.length) ^ (2 * k) := by
+      rw [← pow_mul, ← pow_mul, ← pow_mul]; congr 1; ring
+    rw [this, hw, pow_mul]; simp
+  have e2 : (w * (w ^ 2) ^ k) ^ lo.length = -1 := by
+    rw [mul_pow, e1, hw]; ring
+  rw [e1, e2]
+  constructor <;> ring
+
+end Ring
 end Ark.Fft.A
